@@ -846,25 +846,35 @@ func (c *ConcCtx) encodeChans(e *Exec, byLoc map[string][]*Event, add func(*Term
 		if ci != nil && (ci.kind == "ticker" || ci.kind == "timer") {
 			// environment-driven: a receive may complete at any time after the ticker/timer was armed and before
 			// it is stopped (late or dropped ticks are allowed); a timer delivers at most once
-			var stops []*Event
+			// (idealised semantics: a value fired before a Stop is not delivered afterwards - the pre-Go-1.23
+			// stale value left in the channel buffer by Stop+Reset is NOT modelled)
+			var stops, arms []*Event
 			for _, ev := range evs {
 				if ev.Kind == "stoptimer" {
 					stops = append(stops, ev)
+				} else if ev.Kind == "arm" {
+					arms = append(arms, ev)
 				}
 			}
 			for i, r := range recvs {
-				conj := []*Term{r.Read}
-				for _, s := range stops {
-					conj = append(conj, Or(Not(s.Guard), lt(r.Clk, s.Clk)))
-				}
-				if ci.kind == "timer" {
-					for j, r2 := range recvs {
-						if j != i {
-							conj = append(conj, Not(r2.Guard))
+				// some arming precedes the receive with no stop in between
+				var armed []*Term
+				for _, a := range arms {
+					conj := []*Term{a.Guard, lt(a.Clk, r.Clk)}
+					for _, s := range stops {
+						conj = append(conj, Or(Not(s.Guard), lt(s.Clk, a.Clk), lt(r.Clk, s.Clk)))
+					}
+					if ci.kind == "timer" {
+						// one delivery per arming: no other receive between this arming and r
+						for j, r2 := range recvs {
+							if j != i {
+								conj = append(conj, Or(Not(r2.Guard), lt(r2.Clk, a.Clk), lt(r.Clk, r2.Clk)))
+							}
 						}
 					}
+					armed = append(armed, And(conj...))
 				}
-				add(Implies(r.Guard, And(conj...)))
+				add(Implies(r.Guard, And(r.Read, Or(armed...))))
 			}
 			continue
 		}
